@@ -126,6 +126,8 @@ func (mt *MarkdownTable) RenderTo(w io.Writer) error {
 
 	controlRowCells := make([]tabular.Cell, 0, columnCount)
 	alignments := make([]align.Alignment, columnCount)
+	// column 0 holds the defaults for all columns
+	defaultAlignRaw := mt.Column(0).GetProperty(align.PropertyType)
 	for i := 0; i < columnCount; i++ {
 		width := widths[i]
 		// spec mandates at least three dashes
@@ -134,6 +136,9 @@ func (mt *MarkdownTable) RenderTo(w io.Writer) error {
 		}
 		var al align.Alignment
 		alRaw := mt.Column(i + 1).GetProperty(align.PropertyType)
+		if alRaw == nil {
+			alRaw = defaultAlignRaw
+		}
 		if alRaw != nil {
 			al = alRaw.(align.Alignment)
 			alignments[i] = al
